@@ -4118,6 +4118,12 @@ class FlowIR(object):
                 'isRepeat': to_bool,
                 # VV: when maxRestarts is None, the Engine/RepeatingEngine objects decides max number of restarts
                 'maxRestarts': optional_int,
+                'memoization': {
+                    'disable': {
+                        'strong': to_bool,
+                        'fuzzy': to_bool,
+                    },
+                },
                 'optimizer': {
                     'disable': to_bool,
                     'exploitChance': float,
